@@ -109,6 +109,12 @@ impl Prop for DtOffset {
             let local_tod = *u.choose(&[0i64, 1, 86_399_999_999_999, 86_399_000_000_000, 43_200_000_000_000, 1_000_000_000])?;
             i.ns = (local_tod - off as i64 * 1_000_000_000).rem_euclid(86_400_000_000_000);
         }
+        // as_offset moves the instant by minus the offset: aim at an exact midnight / the last
+        // nanosecond of a day for the *moved* instant
+        if u.coin(1, 8)? {
+            let target = *u.choose(&[0i64, 0, 86_399_999_999_999, 1])?;
+            i.ns = (target + off as i64 * 1_000_000_000).rem_euclid(86_400_000_000_000);
+        }
         let off2 = match u.below(4)? {
             0 | 1 => 0,
             2 => off,
@@ -127,7 +133,7 @@ impl Prop for DtOffset {
         classify(i, c.off, cx);
         let o = Offset::Fixed(c.off);
         let r = catch(|| {
-            let v = mk_dt(i);
+            let v = mk_dt_off_any(i, 0);
             let w = v.set_offset(o);
             let zeros = (
                 w.years_since(&v),
@@ -146,6 +152,13 @@ impl Prop for DtOffset {
             // as_offset on the offset-carrying value (same offset / the second offset)
             let y1 = w.as_offset(o);
             let y2 = w.as_offset(Offset::Fixed(c.off2));
+            if (c.i.ns ^ c.i.day) % 3 == 0 || (c.i.ns - c.off as i64 * 1_000_000_000).rem_euclid(86_400_000_000_000) < 2 {
+                for (name, d) in [("set_offset", &w), ("as_offset", &x), ("second set_offset", &w2), ("as_offset after set_offset", &y1), ("as_offset(off2) after set_offset", &y2)] {
+                    if let Err(why) = canonical_dt(d) {
+                        panic!("non-canonical result of {}: {}", name, why);
+                    }
+                }
+            }
             (observe(&v), observe(&w), v == w, v.cmp(&w), w.cmp(&v), zeros, w.duration_between(&v).as_nanos(), observe(&x), rd_dt(&x), rd_dt(&w), observe(&w2), rd_dt(&w2), (rd_dt(&y1), y1.get_offset(), rd_dt(&y2), y2.get_offset()))
         });
         let (ov, ow, eq, c1, c2, zeros, dur, ox, ix, iw, ow2, iw2, ys) = match r {
